@@ -508,6 +508,33 @@ func (vc *VC) evalKnown(key string, callee *types.Func, recv Value, call *ast.Ca
 	case "maps.Clone":
 		v := vc.term(vc.evalExpr(call.Args[0], st), pos)
 		return []Value{v}, true
+	case "maps.Copy":
+		// dst gets every entry of src (src wins on common keys); writing into a nil dst panics
+		if len(call.Args) == 2 {
+			dst := vc.term(vc.evalExpr(call.Args[0], st), pos)
+			src := vc.term(vc.evalExpr(call.Args[1], st), pos)
+			si := vc.ss.info[dst.Sort]
+			if si != nil && si.Kind == "map" && src.Sort == dst.Sort {
+				S := string(dst.Sort)
+				ks := vc.ss.sortOf(si.Key)
+				if vc.safety {
+					vc.oblige("safe:nil-map-write", "", pos, st.pc, Term{fmt.Sprintf("(or (not (isnil.%s %s)) (= (card.%s %s) 0))", S, dst.S, S, src.S), SBool, nil}, "maps.Copy into a non-nil map (or nothing to copy)")
+				}
+				nv := vc.unknown("copied", vc.typeOf(call.Args[0]))
+				vc.assume(st.pc, Term{fmt.Sprintf("(= (isnil.%s %s) (isnil.%s %s))", S, nv.S, S, dst.S), SBool, nil})
+				vc.assume(st.pc, Term{fmt.Sprintf("(forall ((k! %s)) (! (= (select (has.%s %s) k!) (or (select (has.%s %s) k!) (select (has.%s %s) k!))) :pattern ((select (has.%s %s) k!))))", ks, S, nv.S, S, dst.S, S, src.S, S, nv.S), SBool, nil})
+				vc.assume(st.pc, Term{fmt.Sprintf("(forall ((k! %s)) (! (= (select (get.%s %s) k!) (ite (select (has.%s %s) k!) (select (get.%s %s) k!) (select (get.%s %s) k!))) :pattern ((select (get.%s %s) k!))))", ks, S, nv.S, S, src.S, S, src.S, S, dst.S, S, nv.S), SBool, nil})
+				vc.assume(st.pc, Term{fmt.Sprintf("(>= (card.%s %s) (card.%s %s))", S, nv.S, S, dst.S), SBool, nil})
+				save := vc.safety
+				vc.safety = false
+				switch ast.Unparen(call.Args[0]).(type) {
+				case *ast.Ident, *ast.SelectorExpr, *ast.IndexExpr:
+					vc.store(ast.Unparen(call.Args[0]), st, nv)
+				}
+				vc.safety = save
+				return []Value{}, true
+			}
+		}
 	case "unicode.IsDigit":
 		// on byte-range runes (Latin-1) exactly '0'..'9'
 		r := vc.term(vc.evalExpr(call.Args[0], st), pos)
